@@ -124,6 +124,9 @@ theorem no_key_dropped (valid : Str → Bool) (reg : Registry) (keys : List (Key
       exact List.mem_map.2 ⟨(p.1, c), this, rfl⟩
   · simp [satisfies] at h
 
+example : resolveRegistry allValid regW keysW 0 [1, 2, 0] =
+    .ok [(k "test:a" (some "2.0.0"), "A2".toList), (k "test:b" none, "B".toList), (k "test:a" (some "1.0.0"), "A1".toList)] := by decide
+
 /-- every entry of a successful result carries the content specified for *its own* key -/
 theorem no_cross_content (valid : Str → Bool) (reg : Registry) (keys : List (Key × Span)) (σ : Nat) (π : List Nat)
     (hkeys : (keys.map (·.1)).Nodup) (hπ : π.Perm (List.range keys.length)) (hreg : VersionsFunctional reg)
@@ -145,6 +148,9 @@ theorem no_cross_content (valid : Str → Bool) (reg : Registry) (keys : List (K
       subst ht
       exact ⟨p.2, hp, hs⟩
   · simp [satisfies] at h
+
+example : specResolve allValid regW keysW =
+    .ok [(k "test:a" (some "1.0.0"), "A1".toList), (k "test:a" (some "2.0.0"), "A2".toList), (k "test:b" none, "B".toList)] := by decide
 
 /-- the specification does not depend on the order in which the keys are requested … -/
 theorem spec_order_irrelevant (valid : Str → Bool) (reg : Registry) (keys keys' : List (Key × Span))
@@ -181,5 +187,10 @@ theorem order_of_keys_irrelevant (valid : Str → Bool) (reg : Registry) (keys k
   rw [← spec_order_irrelevant valid reg keys keys' hp]
   apply registry_correct valid reg keys' σ π _ hπ hreg
   exact ((List.Perm.map (·.1) hp).nodup_iff).2 hkeys
+
+example : keysW.reverse.Perm keysW ∧
+    resolveRegistry allValid regW keysW.reverse 0 [0, 2, 1] =
+      .ok [(k "test:b" none, "B".toList), (k "test:a" (some "1.0.0"), "A1".toList), (k "test:a" (some "2.0.0"), "A2".toList)] :=
+  ⟨List.reverse_perm _, by decide⟩
 
 end Wac.Props.C20
